@@ -33,9 +33,10 @@ def idl_arg(chain):
     il = chain['idl']
     form = chain.get('form', 'list')
     d = set(b - a for a, b in zip(il, il[1:]))
-    if form == 'range' and len(d) == 1:
+    if form in ('range', 'range1') and len(d) == 1:
         st = d.pop()
-        return range(il[0], il[-1] + st, st)
+        # 'range1': the same configurations written with the non-canonical stop last+1 (as range(first, last + 1, step))
+        return range(il[0], il[-1] + (st if form == 'range' else 1), st)
     if form == 'array':
         return np.array(il)
     return list(il)
